@@ -1072,6 +1072,34 @@ impl World {
 /// never added.  Returns whether `entry` must still count as allowlisted afterwards (only for
 /// kind 0: a removal request that is answered Ok removes every entry it lists, for good).
 pub fn allowlist_edit(w: &mut World, entry: &str, absent: &str, kind: u8) -> bool {
+    if (7..13).contains(&kind) {
+        // replacement requests (what vlsd issues with its allowlist file): 7 / 10 set([]) - the
+        // operator emptied the list; 8 / 11 add([absent]) then set([absent]) - the new list is a
+        // strict subset of the current one; 9 / 12 set([absent]) - a disjoint new list; 10-12 are
+        // followed by a restart of the signer from its store.  A replacement that is answered Ok
+        // leaves exactly the entries it lists.
+        let node = w.node.clone();
+        let k = (kind - 7) % 3;
+        if k == 1 {
+            let add = vec![absent.to_string()];
+            let r = w.txn(|| call(|| node.add_allowlist(&add))).0;
+            if !r.is_ok() {
+                return true;
+            }
+        }
+        let list: Vec<String> = if k == 0 { vec![] } else { vec![absent.to_string()] };
+        let r = w.txn(|| call(|| node.set_allowlist(&list))).0;
+        if !r.is_ok() {
+            return true;
+        }
+        if kind >= 10 && w.cloud.is_none() && w.backup.is_none() {
+            let r = w.restart();
+            if !r.is_ok() {
+                panic!("harness: restart after an allowlist replacement failed: {}", r.err_msg());
+            }
+        }
+        return false;
+    }
     let k = kind % 7;
     if k == 0 {
         return true;
@@ -1094,6 +1122,15 @@ pub fn allowlist_edit(w: &mut World, entry: &str, absent: &str, kind: u8) -> boo
         }
     }
     false
+}
+
+/// histogram label of an allowlist edit kind
+pub fn allowlist_edit_label(kind: u8) -> String {
+    if (7..13).contains(&kind) {
+        format!("set:{}", kind)
+    } else {
+        format!("{}", kind % 7)
+    }
 }
 
 /// witscripts for the phase-1 entry points, in output order
